@@ -63,6 +63,14 @@ class Occ:
         ds = self.defs.get(l, [])
         if 0 < l <= self.body.arg_count:
             return None, False   # a parameter: what it can hold is the caller's business (fold closures get widened octets)
+        if depth <= 10 and len(ds) == 1 and isinstance(ds[0], tuple):
+            # u64::from(x) / x.into(): the value of the (narrower) argument
+            t = ds[0][1]
+            cp = callee_path(t) or ""
+            if cp.split("::")[-1] in ("from", "into") and len(t["args"]) == 1 and ("convert::From" in cp or "convert::Into" in cp or "convert::num" in cp):
+                m, sh = self.operand(t["args"][0], depth + 1)
+                if m is not None:
+                    return (m & full if full is not None else m), sh
         if depth > 10 or len(ds) != 1 or isinstance(ds[0], tuple):
             return (None if pair else full), False
         rv = ds[0]
